@@ -79,9 +79,9 @@ static typename multi_alg<T>::chk mpi_run(multi_alg<T>*, world<T>& w, rank_env<T
     typename multi_alg<T>::chk const& c, CB cb)
 {
     if (w.dist)
-        return hep::mpi_multi_channel(MPI_COMM_WORLD, hep::make_multi_channel_integrand<T>(e.f, w.d, e.m, w.d, w.C,
+        return hep::mpi_multi_channel(MPI_COMM_WORLD, hep::make_multi_channel_integrand<T>(e.f, w.d, e.m, static_cast<std::size_t>(w.h.get("md", static_cast<long>(w.d))), w.C,
             hep::make_dist_params<T>(2, T(0.0), T(1.0), w.name())), calls, c, cb);
-    return hep::mpi_multi_channel(MPI_COMM_WORLD, hep::make_multi_channel_integrand<T>(e.f, w.d, e.m, w.d, w.C), calls, c, cb);
+    return hep::mpi_multi_channel(MPI_COMM_WORLD, hep::make_multi_channel_integrand<T>(e.f, w.d, e.m, static_cast<std::size_t>(w.h.get("md", static_cast<long>(w.d))), w.C), calls, c, cb);
 }
 
 static std::vector<std::size_t> total_calls_pattern(long tc, std::size_t n)
